@@ -10,6 +10,7 @@ import KafkaVerif.Model.ConnMux
 import KafkaVerif.Model.TransportConn
 import KafkaVerif.Lemmas.BatchBytes
 import KafkaVerif.Gen.MuxFacts
+import KafkaVerif.Model.WireProg
 
 namespace KV.C06
 open KV KV.ConnMux
@@ -831,6 +832,8 @@ parameters by position and data flow), so behaviour-preserving edits leave it tr
 * `takeOnlyOnIdMatch` — `Event.take` requires `f.id = wire seq` (`own_response_or_error`).
 * `peekErrorCloses`, `bodyErrorClosesUnlessKafka` — `peekErr` and `finish io` close the conn (`timeout_closes`,
   `unreadable_body_closes`): a frame is consumed whole or the conn is closed.
+* `wireSitesThreaded`, `remainOnlyFromPrims`, `batchCallbacksThreaded` — the hypothesis of
+  `wire_discipline_consumes_frame` below.
 * `batchCloseDiscards`, `discardRewindsToWire`, `batchCloseKeepsOnlyKafkaOrShortBuffer`, `readValueAccountsBytes`,
   `messageSetSizeFromHeader` — the steps of Model/BatchBytes.lean (`batchClose`, `valOfRead`, `openBatch`) that
   `batch_close_consumes_frame` composes.
@@ -845,6 +848,32 @@ theorem structural_facts_hold :
     Gen.MuxFacts.batchCloseKeepsOnlyKafkaOrShortBuffer = true ∧ Gen.MuxFacts.readValueAccountsBytes = true ∧
     Gen.MuxFacts.messageSetSizeFromHeader = true ∧ Gen.MuxFacts.failedExchangeEndsRun = true ∧
     Gen.MuxFacts.releaseInsideRun = true ∧ Gen.MuxFacts.idgenAdvancesPerExchange = true ∧
-    Gen.MuxFacts.roundTripChecksId = true ∧ Gen.MuxFacts.discardRewindsToWire = true := by decide
+    Gen.MuxFacts.roundTripChecksId = true ∧ Gen.MuxFacts.discardRewindsToWire = true ∧
+    Gen.MuxFacts.wireSitesThreaded = true ∧ Gen.MuxFacts.remainOnlyFromPrims = true ∧
+    Gen.MuxFacts.batchCallbacksThreaded = true := by decide
+
+/-- **Every reader in the size-threading discipline consumes its frame whole.**  Model/BatchBytes.lean spells out the
+magic-0/1 path; the rest of message_reader.go (record batches, varints, record headers, both decompression sites,
+the reader stack) is covered by shape: `wireSitesThreaded`, `remainOnlyFromPrims` and `batchCallbacksThreaded`
+say that the code touches the connection only as `r.remain, err = prim(r.reader, r.remain, …)` (10 sites), through
+the batch.go callbacks (which use only readNewBytes / discardN / io.ReadFull) and through two LimitedReaders charged
+`n − N`.  For ANY program of that form — whatever it computes, however it treats errors, whatever the bytes —
+followed by the `discardN(r.remain)` of `Batch.close`: consumed bytes and counter agree, the frame ends with the counter
+at zero or the stream ended, and at zero what is left of the stream is exactly what followed the frame. -/
+theorem wire_discipline_consumes_frame {α : Type} (prog : WireProg.Prog α) (s : Reader.RS) :
+    let s1 := (prog.run s).2
+    let s2 := (Reader.discardN (↑s1.sz) s1).2
+    Reader.Adv s s2 ∧ (s2.sz = 0 ∨ s2.inp = []) ∧ (s2.sz = 0 → s2.inp = s.inp.drop s.sz) :=
+  WireProg.prog_then_discard_finishes prog s
+
+/-- non-vacuity: a program that reads a length, then that many bytes through a "codec" that stops early, ignores
+the error of a further read and returns; the discard still lands on the frame boundary -/
+example :
+    let prog : WireProg.Prog Nat :=
+      .call (.peekRead 1) fun r => match r with
+        | .ok [n] => .call (.readUpTo n.toNat 2) fun _ => .call (.peekRead 9) fun _ => .ret 7
+        | _ => .ret 0
+    let s1 := (prog.run ⟨[5, 1, 2, 3, 4, 5, 6, 99, 98], 7⟩).2
+    (Reader.discardN (↑s1.sz) s1).2 = ⟨[99, 98], 0⟩ := by decide
 
 end KV.C06
